@@ -1,0 +1,79 @@
+//go:build verif
+
+// Verification hooks (build tag "verif"): exported wrappers around unexported
+// session internals so that an external harness can run one gateway session
+// over in-memory connections. This file only adds code.
+
+package gateway
+
+import (
+	"context"
+	"net"
+	"time"
+
+	"github.com/energomonitor/bisquitt/topics"
+	"github.com/energomonitor/bisquitt/util"
+)
+
+// VerifSessionConfig mirrors handlerConfig.
+type VerifSessionConfig struct {
+	MqttUser     *string
+	MqttPassword []byte
+	AuthEnabled  bool
+	RetryDelay   time.Duration
+	RetryCount   uint
+}
+
+// VerifShared is what ListenAndServe shares between all sessions: one
+// handlerConfig and one predefined topics map.
+type VerifShared struct {
+	cfg        *handlerConfig
+	predefined topics.PredefinedTopics
+}
+
+func NewVerifShared(cfg VerifSessionConfig, predefined topics.PredefinedTopics) *VerifShared {
+	return &VerifShared{
+		cfg: &handlerConfig{
+			MqttUser:     cfg.MqttUser,
+			MqttPassword: cfg.MqttPassword,
+			AuthEnabled:  cfg.AuthEnabled,
+			RetryDelay:   cfg.RetryDelay,
+			RetryCount:   cfg.RetryCount,
+		},
+		predefined: predefined,
+	}
+}
+
+// VerifSession is one gateway session (one handler1).
+type VerifSession struct {
+	h *handler1
+}
+
+// NewSession creates a session whose broker connection is brokerConn.
+func (s *VerifShared) NewSession(brokerConn net.Conn, logger util.Logger) *VerifSession {
+	h := newHandler(s.cfg, s.predefined, logger)
+	h.mockupDialFunc = func() net.Conn { return brokerConn }
+	return &VerifSession{h: h}
+}
+
+// Run does what ListenAndServe's per-connection goroutine does: run the
+// handler, then close the MQTT-SN connection.
+func (v *VerifSession) Run(ctx context.Context, snConn net.Conn) {
+	defer snConn.Close()
+	v.h.run(ctx, snConn)
+}
+
+// State returns the session's client state (read-only probe).
+func (v *VerifSession) State() util.ClientState {
+	return v.h.state.Get()
+}
+
+// Registered returns a copy of the session's registered topics (read-only probe).
+func (v *VerifSession) Registered() map[uint16]string {
+	res := map[uint16]string{}
+	v.h.registeredTopics.Range(func(key, value interface{}) bool {
+		res[key.(uint16)] = value.(string)
+		return true
+	})
+	return res
+}
